@@ -148,6 +148,13 @@ CHECKS = {
 
 NOT_YET = {}
 
+# thorough tiers that add coverage-guided campaigns (libFuzzer) to the generated checks
+THOROUGH = {
+    "C01": "./check C01 thorough && ./fuzz/run.sh rt5 300 C01",
+    "C02": "./check C02 thorough && ./fuzz/run.sh dec_v5 300 C02 && ./fuzz/run.sh dec_v3 300 C02 && ./fuzz/run.sh sniff 120 C02",
+}
+
+
 def main():
     props = [json.loads(l) for l in open(os.path.join(ROOT, "properties.jsonl"))]
     checks, na = [], []
@@ -158,7 +165,7 @@ def main():
             checks.append({
                 "property_id": pid,
                 "quick_cmd": f"./check {pid} quick",
-                "thorough_cmd": f"./check {pid} thorough",
+                "thorough_cmd": THOROUGH.get(pid, f"./check {pid} thorough"),
                 "evidence_file": f"evidence/{pid}.json",
                 "replay_cmd_template": f"./check {pid} --replay {{path}}",
                 "engine": "mqtt-verif",
